@@ -13,6 +13,10 @@ package main
 // C20fwd: the same through a whole Core with mock convergence senders: which sender gets which
 //   bundle, and whether the bundle is released.
 //
+// C20conc: link-state updates of one origin with different timestamps delivered by several
+//   goroutines at once (NotifyNewBundle is called from the goroutines of the receiving convergence
+//   layers), next to recomputations: afterwards the stored record is the newest one delivered.
+//
 // Time: computeRoutingTable reads the clock itself.  A case starts at T0; loss times are T0 - a*100s
 // for small integers a, so path costs differ by >= 100 s or not at all, while a case runs for
 // milliseconds (cases that took longer than 10 s are dropped and counted).  In the output all
@@ -22,6 +26,7 @@ import (
 	"bytes"
 	"fmt"
 	"sort"
+	"sync"
 
 	"github.com/dtn7/dtn7-go/pkg/bpv7"
 	"github.com/dtn7/dtn7-go/pkg/cla"
@@ -39,6 +44,7 @@ const (
 var dtConf = routing.DTLSRConfig{RecomputeTime: "1h", BroadcastTime: "1h", PurgeTime: dtPurgeStr}
 
 func dtEidStr(i int) string { return fmt.Sprintf("dtn://n%d/", i) }
+
 var dtEidCache = map[int]bpv7.EndpointID{}
 var dtBroadcastEid = MustEID(dtBroadcast)
 
@@ -413,6 +419,67 @@ func genC20dtlsr(o *Out, r *Rng, thorough bool) {
 		runDtCase(o, hn, ops, "grand")
 	}
 
+	// ---- neighbours that come back: lost and re-appeared before / after the purge time ----
+	{
+		rec := func(id int, ts uint64, ps ...[2]int) dtOp {
+			return dtOp{kind: "notify", id: id, ts: ts, peers: ps, snap: true}
+		}
+		ap := func(p int) dtOp { return dtOp{kind: "appear", id: p, snap: true} }
+		dis := func(p, a int) dtOp { return dtOp{kind: "disappear", id: p, a: a, snap: true} }
+		purge, compute, cron := dtOp{kind: "purge", snap: true}, dtOp{kind: "compute", snap: true}, dtOp{kind: "cron", snap: true}
+		for _, a := range []int{1, 3, 29, 30, 31, 45} {
+			for _, b := range []int{0, 1, 2, 40} {
+				// 1 is lost a units ago and comes back; 2 is live (b = 0), lost more recently or lost long ago; both lead to 5
+				ops := []dtOp{ap(1), dis(1, a), ap(1), ap(2)}
+				if b > 0 {
+					ops = append(ops, dis(2, b))
+				}
+				ops = append(ops, rec(1, 50, [2]int{5, 0}), rec(2, 50, [2]int{5, 0}, [2]int{6, 1}), compute, purge, compute, cron)
+				runDtCase(o, hn, ops, "reappear")
+				// the purge runs while 1 is away, then it comes back
+				ops = []dtOp{ap(1), ap(2), dis(1, a), purge, compute, ap(1), rec(1, 50, [2]int{5, 0}), cron, purge, compute}
+				if b > 0 {
+					ops = append(ops, dis(2, b), compute, ap(2), purge, compute)
+				}
+				runDtCase(o, hn, ops, "reappear")
+			}
+		}
+		nre := 150
+		if thorough {
+			nre = 3000
+		}
+		for c := 0; c < nre; c++ {
+			n := 3 + r.Intn(4)
+			var ops []dtOp
+			for u := 1; u < n; u++ {
+				var ps [][2]int
+				for v := 1; v <= n; v++ {
+					if v != u && r.Intn(2) == 0 {
+						ps = append(ps, [2]int{v, []int{0, 0, 1, 2, 35}[r.Intn(5)]})
+					}
+				}
+				ops = append(ops, dtOp{kind: "notify", id: u, ts: uint64(10 + u), peers: ps})
+			}
+			for i, k := 0, 4+r.Intn(12); i < k; i++ {
+				p := 1 + r.Intn(2+r.Intn(n-2))
+				switch x := r.Intn(10); {
+				case x < 4:
+					ops = append(ops, ap(p))
+				case x < 7:
+					ops = append(ops, dis(p, []int{1, 2, 3, 29, 31, 40}[r.Intn(6)]))
+				case x < 8:
+					ops = append(ops, purge)
+				case x < 9:
+					ops = append(ops, compute)
+				default:
+					ops = append(ops, cron)
+				}
+			}
+			ops = append(ops, purge, compute)
+			runDtCase(o, hn, ops, "reappear")
+		}
+	}
+
 	// ---- random histories: everything interleaved, checkpoints after every op ----
 	nh := 600
 	if thorough {
@@ -602,10 +669,16 @@ func genC20fwd(o *Out, r *Rng, thorough bool) {
 			n.PeerDown(fmt.Sprintf("p%d", q))
 			d.VerifSetPeerTime(dtEid(q), run.real(1+r.Intn(3)))
 			events = append(events, L(Sym("down"), I(q)))
+			if r.Bool() {
+				// ... and comes back before the table is computed
+				n.PeerUp(fmt.Sprintf("p%d", q), dtEidStr(q))
+				events = append(events, L(Sym("up-again"), I(q)))
+			}
 		}
 		d.VerifRecomputeCron()
 		st := d.VerifState()
 		snap := dtSnap(run, st)
+		events = append(events, L(Sym("conn"), dtPeerList(n)))
 		events = append(events, L(Sym("table"), snap))
 		// unicast bundles: to every node (bare node ID), to a service endpoint, to an unknown node
 		for v := 1; v <= N; v++ {
@@ -662,6 +735,7 @@ func genC20fwd(o *Out, r *Rng, thorough bool) {
 			n.PeerDown("p90")
 			d.VerifSetPeerTime(dtEid(90), run.real(2))
 			d.VerifRecomputeCron()
+			events = append(events, L(Sym("conn"), dtPeerList(n)))
 			events = append(events, L(Sym("table-own"), dtSnap(run, d.VerifState())))
 		}
 		slow := uint64(bpv7.DtnTimeNow())-t0 > 10000
@@ -674,7 +748,108 @@ func genC20fwd(o *Out, r *Rng, thorough bool) {
 	}
 }
 
+// ---------------------------------------------------------------------------------------------
+// C20conc: concurrent delivery of link-state updates of one origin
+
+// one round: `k` updates of origin `id` with the distinct timestamps base+1 .. base+k (each
+// recognisable by its peer list) are handed to NotifyNewBundle by k goroutines released together;
+// `known` = a record with timestamp base was stored before.
+func dtConcRound(d *routing.DTLSR, run *dtRun, r *Rng, id int, base uint64, k int, known bool, wire bool) (delivered []S, stored S) {
+	var bs []bpv7.Bundle
+	if known {
+		op := dtOp{id: id, ts: base, peers: [][2]int{{900, 0}}}
+		d.VerifNotify(dtBundle(id, run.data(op), 0, -1))
+	}
+	perm := make([]int, k)
+	for i := range perm {
+		perm[i] = i
+	}
+	for i := k - 1; i > 0; i-- {
+		j := r.Intn(i + 1)
+		perm[i], perm[j] = perm[j], perm[i]
+	}
+	for _, i := range perm {
+		op := dtOp{id: id, ts: base + 1 + uint64(i), peers: [][2]int{{901 + i, 0}, {800, 1 + i%3}}}
+		b := dtBundle(id, run.data(op), uint64(1+i), -1)
+		if wire {
+			b = dtWire(b)
+		}
+		bs = append(bs, b)
+		delivered = append(delivered, L(U(op.ts), I(901+i)))
+	}
+	var wg sync.WaitGroup
+	gate := make(chan struct{})
+	for i := range bs {
+		wg.Add(1)
+		go func(b bpv7.Bundle) { defer wg.Done(); <-gate; d.VerifNotify(b) }(bs[i])
+	}
+	close(gate)
+	wg.Wait()
+	stored = L()
+	for _, rec := range d.VerifState().Received {
+		if rec.ID == dtEid(id) {
+			mark := 0
+			for p := range rec.Peers {
+				if n := dtNum(p); n >= 900 && n < 1000 {
+					mark = n
+				}
+			}
+			stored = L(U(uint64(rec.Timestamp)), I(mark), I(len(rec.Peers)))
+		}
+	}
+	return
+}
+
+func genC20conc(o *Out, r *Rng, thorough bool) {
+	hn := NewNode(dtEidStr(0), routing.RoutingConf{Algorithm: "dtlsr", DTLSRConf: dtConf})
+	defer hn.Destroy()
+	// (with a check-then-act split of NotifyNewBundle about half of the rounds end with an older record:
+	// the goroutines are released together, so their look-ups precede the first store)
+	batches, per := 12, 50
+	if thorough {
+		batches = 300
+	}
+	for bno := 0; bno < batches; bno++ {
+		d := routing.VerifNewDTLSR(hn.Core, dtConf)
+		run := &dtRun{d: d, t0: uint64(bpv7.DtnTimeNow()), flagOK: true}
+		d.ReportPeerAppeared(dtMock(1))
+		// the recompute cron job and a reader run next to the deliveries
+		stop := make(chan struct{})
+		var bg sync.WaitGroup
+		bg.Add(1)
+		go func() {
+			defer bg.Done()
+			for {
+				select {
+				case <-stop:
+					return
+				default:
+					d.VerifRecomputeCron()
+					_ = d.VerifState()
+				}
+			}
+		}()
+		var rounds []S
+		for i := 0; i < per; i++ {
+			id := 100 + i
+			known := r.Intn(3) != 0
+			k := 2 + r.Intn(7)
+			if r.Intn(4) == 0 {
+				id = 100 + r.Intn(i+1) // an origin of an earlier round again: newer timestamps
+				known = true
+			}
+			base := uint64(1000 * (i + 1))
+			del, st := dtConcRound(d, run, r, id, base, k, known, r.Intn(4) == 0)
+			rounds = append(rounds, L(I(id), B(known), U(base), LL(del), st))
+		}
+		close(stop)
+		bg.Wait()
+		o.Case("conc", LL(rounds))
+	}
+}
+
 func init() {
 	register("C20dtlsr", genC20dtlsr)
 	register("C20fwd", genC20fwd)
+	register("C20conc", genC20conc)
 }
